@@ -112,6 +112,9 @@ func c15Judge(mods map[string]string, legal bool, want string, tags []string, r 
 		r.Outcome("illegal")
 		if a.Obs.Accepted() {
 			r.Fail("ACCEPTS-ILLEGAL-IMPORT", tags, text, "no error-level diagnostic for an import of a private or missing item / missing module / cyclic import")
+		} else if hasTag(tags, "cycle") && !strings.Contains(strings.ToLower(strings.Join(a.Obs.Errors, "\n")), "cycl") {
+			// the cyclic import itself is what has to be reported, not only a consequence of it
+			r.Fail("CYCLE-NOT-REPORTED:the program is rejected but no diagnostic names the cyclic import", tags, text, a.Obs.String())
 		}
 		return
 	}
@@ -263,6 +266,12 @@ func c15F3(idx int, r *Result) {
 			edges = append(edges, e)
 		}
 	}
+	c15GraphRun(modsList, imports, edges, r)
+}
+
+// c15GraphRun builds the modules of an import graph (imports[x] is the ORDERED list of the
+// modules x imports), decides legality with the reference linker and judges the pipeline.
+func c15GraphRun(modsList []string, imports map[string][]string, edges [][2]string, r *Result) {
 	// reachable modules from main (the analyzer only sees those)
 	reach := map[string]bool{"main": true}
 	queue := []string{"main"}
@@ -366,6 +375,51 @@ func c15F3(idx int, r *Result) {
 	c15Judge(mods, legal, want.String(), tags, r)
 }
 
+// ---------------------------------------------------------------- F5: ordered import lists
+
+// Five modules: main imports m; each of m, a, n, x imports an ORDERED list of at most two of
+// the other three. The order matters to an analyzer that checks for cycles while it is still
+// collecting the imports of a module (a verdict reached after the first import must not be
+// reused after the second).
+var c15F5Mods = []string{"m", "a", "n", "x"}
+
+func c15F5Lists(self string) [][]string {
+	var others []string
+	for _, o := range c15F5Mods {
+		if o != self {
+			others = append(others, o)
+		}
+	}
+	out := [][]string{nil}
+	for _, o := range others {
+		out = append(out, []string{o})
+	}
+	for _, o := range others {
+		for _, p := range others {
+			if o != p {
+				out = append(out, []string{o, p})
+			}
+		}
+	}
+	return out
+}
+
+func c15F5Count() int { return 10 * 10 * 10 * 10 }
+
+func c15F5(idx int, r *Result) {
+	d := radix(idx, 10, 10, 10, 10)
+	imports := map[string][]string{"main": {"m"}}
+	edges := [][2]string{{"main", "m"}}
+	for i, mod := range c15F5Mods {
+		l := c15F5Lists(mod)[d[i]]
+		imports[mod] = l
+		for _, y := range l {
+			edges = append(edges, [2]string{mod, y})
+		}
+	}
+	c15GraphRun(append([]string{"main"}, c15F5Mods...), imports, edges, r)
+}
+
 // ---------------------------------------------------------------- F4: exceptions across modules
 
 var c15F4Shapes = []string{"caught-in-main", "caught-in-library", "uncaught-from-library", "library-catches-own", "caught-in-main-then-call-library-again", "nested-library-chain"}
@@ -465,6 +519,7 @@ func init() {
 			{Name: "same-names-in-several-modules", Count: func(string) int { return c15F2Count() }, Run: func(_ string, idx int, r *Result) { c15F2(idx, r) }},
 			{Name: "exceptions-across-modules", Count: func(string) int { return c15F4Count() }, Run: func(_ string, idx int, r *Result) { c15F4(idx, r) }},
 			{Name: "import-graphs", Count: func(string) int { return c15F3Count() }, Run: func(_ string, idx int, r *Result) { c15F3(idx, r) }},
+			{Name: "ordered-import-lists-over-five-modules", Count: func(string) int { return c15F5Count() }, Run: func(_ string, idx int, r *Result) { c15F5(idx, r) }},
 		}}
 	})
 }
